@@ -2436,6 +2436,12 @@ func (db *DB) Drop(ctx context.Context) (err error) {
 	db.wal.frameOffsets = make(map[uint32]int64)
 	db.wal.chksums = make(map[uint32][]ltx.Checksum)
 
+	// A transaction that a dead client left unfinished went away with the
+	// journal; its pages must not be attributed to the first transaction of a
+	// database created under the same name.
+	db.dirtyPageSet = make(map[uint32]struct{})
+	db.journalTx = false
+
 	// Update transaction for database.
 	pos = ltx.NewPos(enc.Header().MaxTXID, enc.Trailer().PostApplyChecksum)
 	if err := db.setPos(pos, enc.Header().Timestamp); err != nil {
